@@ -25,6 +25,9 @@ func NewStructProtoFunc() erpc.ProtoFunc {
 		p.tProtocol = thrift.NewTHeaderProtocol(&BaseTTransport{
 			ReadWriteCounter: p.rwCounter,
 		})
+		p.rProtocol = thrift.NewTHeaderProtocol(&BaseTTransport{
+			ReadWriteCounter: p.rwCounter,
+		})
 		return p
 	}
 }
@@ -49,7 +52,7 @@ func (t *tStructProto) Pack(m erpc.Message) error {
 func (t *tStructProto) Unpack(m erpc.Message) error {
 	err := t.structUnpack(m)
 	if err != nil {
-		t.tProtocol.Transport().Close()
+		t.rProtocol.Transport().Close()
 	}
 	return err
 }
@@ -99,7 +102,7 @@ func (t *tStructProto) structUnpack(m erpc.Message) error {
 	t.unpackLock.Lock()
 	defer t.unpackLock.Unlock()
 	t.rwCounter.ReadCounter.Zero()
-	err := readMessageBegin(t.tProtocol, m)
+	err := readMessageBegin(t.rProtocol, m)
 	if err != nil {
 		return err
 	}
@@ -107,7 +110,7 @@ func (t *tStructProto) structUnpack(m erpc.Message) error {
 	// The headers arrive with the frame, before the body: apply them first, because
 	// binding the body (UnmarshalBody) is the point where the metadata of a reply is
 	// handed to the waiting call and where the hooks that read the header run.
-	headers := t.tProtocol.GetReadHeaders()
+	headers := t.rProtocol.GetReadHeaders()
 	m.Status(true).DecodeQuery(goutil.StringToBytes(headers[HeaderStatus]))
 	m.Meta().Parse(headers[HeaderMeta])
 
@@ -116,11 +119,11 @@ func (t *tStructProto) structUnpack(m erpc.Message) error {
 	if !ok {
 		return fmt.Errorf("thrift codec: %T does not implement thrift.TStruct", m.Body())
 	}
-	if err = s.Read(t.tProtocol); err != nil {
+	if err = s.Read(t.rProtocol); err != nil {
 		return err
 	}
 
-	if err = t.tProtocol.ReadMessageEnd(); err != nil {
+	if err = t.rProtocol.ReadMessageEnd(); err != nil {
 		return err
 	}
 
